@@ -192,6 +192,29 @@ var templates = []template{
 		no := model.ErrorNumberType(rapid.SampledFrom([]int{0, 1, 7}).Draw(t, "errorNumber"))
 		return p.Msg(model.CmdClassifierTypeResult, p.FA([]uint{1}, 3), e.cli.Address(), false, p.DiscoveryRef, model.CmdType{ResultData: &model.ResultDataType{ErrorNumber: &no, Description: util.Ptr(model.DescriptionType("x"))}})
 	}},
+	{"write-hostile-values", func(t *rapid.T, e *env, p *world.Peer) model.DatagramType {
+		// (c) a write the stack accepts (bound writer, changeable limit, well-formed) whose values are
+		// legal JSON strings / numbers with a text or magnitude the stack cannot convert: they end up
+		// in the stored data and are encoded again for subscribers and readers
+		times := []string{"2035-01-01T12:00:00+02:00", "never", "", "P", "PT", "-PT5M", "2024-13-45T00:00:00Z", "PT1.5S", "P1Y2M3DT4H5M6S", "0001-01-01T00:00:00Z", "9999-12-31T23:59:59Z", "PT2H"}
+		it := model.LoadControlLimitDataType{LimitId: util.Ptr(model.LoadControlLimitIdType(rapid.IntRange(0, 1).Draw(t, "limit")))}
+		tp := &model.TimePeriodType{EndTime: model.NewAbsoluteOrRelativeTimeType(rapid.SampledFrom(times).Draw(t, "endTime"))}
+		if rapid.IntRange(0, 2).Draw(t, "withStart") == 0 {
+			tp.StartTime = model.NewAbsoluteOrRelativeTimeType(rapid.SampledFrom(times).Draw(t, "startTime"))
+		}
+		if rapid.IntRange(0, 3).Draw(t, "withPeriod") != 0 {
+			it.TimePeriod = tp
+		}
+		if rapid.Bool().Draw(t, "withValue") {
+			it.Value = &model.ScaledNumberType{
+				Number: util.Ptr(model.NumberType(rapid.SampledFrom([]int64{0, 1, -1, 9007199254740993, 9223372036854775807, -9223372036854775808}).Draw(t, "number"))),
+				Scale:  util.Ptr(model.ScaleType(rapid.SampledFrom([]int{0, 1, -1, 127, -128, 19, -19}).Draw(t, "scale"))),
+			}
+		}
+		cmd := model.CmdType{Function: util.Ptr(model.FunctionTypeLoadControlLimitListData), Filter: []model.FilterType{*model.NewFilterTypePartial()},
+			LoadControlLimitListData: &model.LoadControlLimitListDataType{LoadControlLimitData: []model.LoadControlLimitDataType{it}}}
+		return p.Msg(model.CmdClassifierTypeWrite, p.FA([]uint{1}, 2), e.lc.Address(), true, nil, cmd)
+	}},
 	{"hostile-typed", func(t *rapid.T, e *env, p *world.Peer) model.DatagramType {
 		// (b) semantic hostility: a well-typed but arbitrary command (any payload field, any filter)
 		cmd := gen.Ptr(t, reflect.TypeOf(model.CmdType{}), gen.Opt{MaxDepth: 3, MaxSlice: 1}, "cmd").Interface().(*model.CmdType)
@@ -237,7 +260,7 @@ func collectD(v any, parent any, key string, idx int, depth int, out *[]node) {
 	}
 }
 
-var replacements = []any{"", "x", float64(0), float64(1), float64(-1), true, 1e11, "read", "server", "Measurement", "measurementListData", "PT1S", map[string]any{}, []any{}, nil, []any{float64(1)}, "\u0000"}
+var replacements = []any{"", "x", float64(0), float64(1), float64(-1), true, 1e11, "read", "server", "Measurement", "measurementListData", "PT1S", "2035-01-01T12:00:00+02:00", "never", map[string]any{}, []any{}, nil, []any{float64(1)}, "\u0000"}
 
 // mutate applies k in 0..3 mutations to the JSON text.
 func mutate(t *rapid.T, raw []byte, label string) ([]byte, []string) {
@@ -371,6 +394,10 @@ func probe(e *env, p *world.Peer) *verdict {
 		for _, d := range []model.DatagramType{
 			p.Msg(model.CmdClassifierTypeReply, p.NM(), world.LocalNM(), false, p.DiscoveryRef, model.CmdType{NodeManagementUseCaseData: &model.NodeManagementUseCaseDataType{}}),
 			p.Msg(model.CmdClassifierTypeNotify, p.FA([]uint{1}, 3), e.cli.Address(), false, nil, model.CmdType{MeasurementListData: &model.MeasurementListDataType{}}),
+			// whatever an accepted write has left in the data of the server features is encoded again
+			// when somebody reads it
+			p.Msg(model.CmdClassifierTypeRead, p.FA([]uint{1}, 1), e.meas.Address(), false, nil, model.CmdType{MeasurementListData: &model.MeasurementListDataType{}}),
+			p.Msg(model.CmdClassifierTypeRead, p.FA([]uint{1}, 2), e.lc.Address(), false, nil, model.CmdType{LoadControlLimitListData: &model.LoadControlLimitListDataType{}}),
 		} {
 			if v := inject(p, world.Encode(d)); v != nil {
 				v.sig = strings.Replace(v.sig, "C05/", "C05/probe-", 1)
